@@ -118,7 +118,7 @@ def stats(c, r):
 
 
 e1check.run(dict(
-    prop='C09L', props='C09', model='c09l', harness='e1/c09l.cpp', bin='e1_c09l', gen=gen, nontrivial=nontrivial, stats=stats,
+    prop='C09L', props=['C09', 'C09uLatch', 'C09uOnce'], model='c09l', harness='e1/c09l.cpp', bin='e1_c09l', gen=gen, nontrivial=nontrivial, stats=stats,
     quick=8000, thorough=400000, extra=20000,
     rule='random programs on one object under the baton, callers on OS threads (agent=os) or - 30 % of the quick cases, 10 % of the thorough cases - on pika tasks of a live runtime with n + 1 workers whose blocking goes through pika\'s own task agent (agent=task: real suspension of the task, wake-up by set_thread_state, lost real wake-up declared from runtime state): latch (2-6 threads, initial count 0-6, count_down(n)/arrive_and_wait(n) updates summing to exactly / less than / more than the count, wait, try_wait), event (2-5 threads, wait/set/occurred, a third of the cases with reset), call_once (2-6 threads, 1-2 calls each, callable throwing with probability 0..1); PRNG schedules (uniform / priority / sticky); non-trivial = at least one thread enqueued on the condition variable or lost the call_once CAS; distinct = distinct (program, schedule seed) text',
     corr_name='E1 log of harness/e1/c09l.cpp (real pika::latch / event / call_once, callers on OS threads or on pika tasks) accepted by the Lean acceptors Latch.step / Once.step',
